@@ -112,6 +112,34 @@ def nd(rng, ids):
     return ["VNd", ids.new(), "numpyndarray", dtype, shape, arr.tobytes().hex()]
 
 
+BIG_NBYTES = [8192 - 8, 8192, 8192 + 8, 2 * 8192 - 16, 2 * 8192, 2 * 8192 + 8, 3 * 8192 + 4096, 80000, 10 * 8192 + 24]
+
+
+def nd_big_pair(rng, ids, k):
+    """(where, t1, t2): two large constant-filled arrays (byte size around multiples of 8192, the chunk size numpy
+    buffers are commonly streamed in) that differ in exactly one element: the last one, one inside the last
+    (nbytes % 8192) bytes, the first one, or one in the middle; k cycles through sizes and positions"""
+    import numpy as np
+    dtype = ["float64", "uint8", "int32", "float64"][k % 4]
+    item = np.dtype(dtype).itemsize
+    nbytes = BIG_NBYTES[k % len(BIG_NBYTES)]
+    n = nbytes // item
+    fill = rng.choice([0, 1, 3])
+    a = np.full(n, fill, dtype=dtype)
+    where = ["last", "tail", "first", "middle", "last"][(k // len(BIG_NBYTES) + k) % 5]
+    tail_items = max(1, (nbytes % 8192) // item)
+    pos = {"last": n - 1, "tail": n - 1 - rng.randrange(tail_items), "first": 0, "middle": n // 2}[where]
+    b = a.copy()
+    b[pos] = fill + 5
+    shape = [n] if k % 3 else [2, n // 2] if n % 2 == 0 else [n]
+    t1 = ["VNd", ids.new(), "numpyndarray", dtype, shape, a.tobytes().hex()]
+    t2 = ["VNd", ids.new(), "numpyndarray", dtype, shape, b.tobytes().hex()]
+    if k % 2:
+        t1 = ["VList", ids.new(), [t1, ["VInt", k]]]
+        t2 = ["VList", ids.new(), [t2, ["VInt", k]]]
+    return "%s@%d/%dB" % (where, pos, nbytes), t1, t2
+
+
 # ------------------------------------------------------------------ traversal helpers
 def children(t):
     k = t[0]
